@@ -671,8 +671,13 @@ fn shl(a: Fr, b: Fr) -> Fr {
     }
 
     let n = b.into_bigint().0[0] as u32;
-    let a = a.into_bigint();
-    Fr::from_bigint(a << n).unwrap()
+    let mut a = a.into_bigint() << n;
+    // keep the low MODULUS_BIT_SIZE (254) bits, then reduce modulo p
+    a.0[3] &= (1u64 << 62) - 1;
+    if a >= Fr::MODULUS {
+        a.sub_with_borrow(&Fr::MODULUS);
+    }
+    Fr::from_bigint(a).unwrap()
 }
 
 fn shr(a: Fr, b: Fr) -> Fr {
